@@ -28,8 +28,10 @@ type Obligation struct {
 }
 
 type ReplayHint struct {
-	Params []string          // SMT names of parameters in order
-	Extra  map[string]string // label -> SMT term to query in the model
+	Params  []string          // SMT names of parameters in order
+	Results []string          // SMT terms of the returned values (ensures obligations)
+	Reach   string            // reachability term of the return the obligation belongs to
+	Extra   map[string]string // label -> SMT term to query in the model
 }
 
 // State is the symbolic state at one program point.
